@@ -1262,7 +1262,7 @@ func (i *interpreter) conv(t_dst, t_src types.Type, x value) value {
 					if ss.hasOpaque() {
 						panic(unsupported{"[]byte of a string containing a formatted symbolic number"})
 					}
-					return append([]value(nil), ss.b...)
+					return append(make([]value, 0, len(ss.b)), ss.b...)
 				}
 				// []rune: ASCII-only via decodeRuneSym
 				var res []value
@@ -1300,6 +1300,7 @@ func (i *interpreter) conv(t_dst, t_src types.Type, x value) value {
 					}
 					return res
 				case types.Byte:
+					res = make([]value, 0, len(s))
 					for _, b := range []byte(s) {
 						res = append(res, b)
 					}
